@@ -61,8 +61,18 @@ def main(names):
     c = subprocess.run([os.path.join(ROOT, "check"), pid, "--tier", "quick"], capture_output=True, text=True)
     if c.returncode != 0:
       print(f"seeded: WARNING clean-tree re-run of {pid} exited {c.returncode}")
-  with open(os.path.join(SEEDED, "RESULTS.md"), "w") as f:
+  # a run over selected changes replaces only their rows
+  path = os.path.join(SEEDED, "RESULTS.md")
+  table = {}
+  if os.path.exists(path):
+    for l in open(path):
+      c = [x.strip() for x in l.strip().strip("|").split(" | ")]
+      if len(c) == 5 and c[0] not in ("change", "---") and not c[0].startswith("-"): table[(c[0], c[1])] = c
+  ran = {r[0] for r in rows}
+  table = {k: v for k, v in table.items() if k[0] not in ran and os.path.isdir(os.path.join(SEEDED, k[0]))}
+  for row in rows: table[(row[0], row[1])] = [str(x) for x in row]
+  with open(path, "w") as f:
     f.write("# Seeded breaking changes vs. checks\n\n| change | property | result | first signature | s |\n|---|---|---|---|---|\n")
-    for row in rows: f.write("| " + " | ".join(str(x) for x in row) + " |\n")
+    for k in sorted(table): f.write("| " + " | ".join(table[k]) + " |\n")
   print(f"seeded: {len(rows) - bad}/{len(rows)} detected")
   return 1 if bad else 0
